@@ -831,6 +831,12 @@ class BaseSignature(Name):
         """
         return self._signature.to_string()
 
+    def _get_docstring_signature(self):
+        # The signature line of a signature is that signature. Inferring the
+        # name again loses the binding: for a classmethod reached through its
+        # class it yields the plain function, ``cls`` included.
+        return self.to_string()
+
 
 class Signature(BaseSignature):
     """
